@@ -217,3 +217,39 @@ func isNilConst(v ssa.Value) bool {
 	c, ok := stripConv(v).(*ssa.Const)
 	return ok && c.IsNil()
 }
+
+// resultsOf returns the values a Return delivers. In functions with named
+// results and a deferred closure, go/ssa spills the results: the return
+// statement stores into the named-result allocs and the Return loads them
+// back. Those loads are resolved to the values stored by the same return
+// statement (the stores directly preceding the loads in the block).
+func resultsOf(ret *ssa.Return) []ssa.Value {
+	out := make([]ssa.Value, len(ret.Results))
+	blk := ret.Block()
+	for j, res := range ret.Results {
+		out[j] = res
+		ld, ok := res.(*ssa.UnOp)
+		if !ok || ld.Op != token.MUL || ld.Block() != blk {
+			continue
+		}
+		al, ok := ld.X.(*ssa.Alloc)
+		if !ok {
+			continue
+		}
+		// last store to the alloc in this block before the load
+		idx := instrIndex(ld)
+		for i := idx - 1; i >= 0; i-- {
+			if st, ok := blk.Instrs[i].(*ssa.Store); ok && st.Addr == al {
+				out[j] = st.Val
+				break
+			}
+			if _, isCall := blk.Instrs[i].(ssa.CallInstruction); isCall {
+				// a call (e.g. rundefers) between store and load could change it
+				if _, isRD := blk.Instrs[i].(*ssa.RunDefers); !isRD {
+					continue
+				}
+			}
+		}
+	}
+	return out
+}
